@@ -10,6 +10,7 @@ KINDS = {
     "deq": (("lv", "const", "rv"), True, 0, 6, False),
     "list": (("lv", "const", "rv"), True, 0, 6, False),
     "fv": (("lv", "const", "rv"), True, 0, 6, False),
+    "fvp": (("lv", "const", "rv"), True, 0, 6, False),   # a fixed_vector with stale slots behind its end
     "arr": (("lv", "const", "rv"), True, 0, 6, False),
     "set": (("lv", "const", "rv"), False, 0, 6, True),
     "map": (("lv", "const", "rv"), False, 0, 6, True),
